@@ -127,4 +127,38 @@ def runFrom (s : TState) : List TEv → List TStep
 
 def run (cfg : Cfg) (h : List TEv) : List TStep := runFrom { peer := Peer.init cfg } h
 
+/-! ### Timer probe
+
+  What can be seen from outside of a fresh session task's two timer slots after ONE
+  `apply_outputs` call with a given list of outputs: is `FuturesUnordered::next()` (what
+  `run_select` polls) ready at once, and what deadline is armed.  The harness
+  (harness/daemon/c08.rs) measures exactly this on a real `PeerSession`. -/
+
+inductive Armed where
+  | empty            -- no sleep in the collection (`next()` is then ready at once, with `None`)
+  | far              -- the "disabled" sleep of `u64::MAX` seconds
+  | secs (n : Nat)   -- whole seconds from now
+  deriving DecidableEq, Repr, Inhabited
+
+structure SlotObs where
+  fires : Bool
+  armed : Armed
+  deriving DecidableEq, Repr, Inhabited
+
+structure ProbeObs where
+  hold : SlotObs
+  ka : SlotObs
+  deriving DecidableEq, Repr, Inhabited
+
+/-- A slot at clock 0: no deadline = the disabled sleep; deadline 0 is ready at once. -/
+def slotObs : Option Nat → SlotObs
+  | none => { fires := false, armed := .far }
+  | some 0 => { fires := true, armed := .secs 0 }
+  | some n => { fires := false, armed := .secs n }
+
+/-- A fresh passive session task (both slots disabled, clock 0) applies `outs` in one call. -/
+def probe (outs : List POut) : ProbeObs :=
+  let s := applyOuts .passive { peer := Peer.init default } outs
+  { hold := slotObs s.p.hold, ka := slotObs s.p.ka }
+
 end Rbgp.Fsm.Timed
